@@ -1625,14 +1625,14 @@ Qed.
 Lemma agree_set T fl t l : agree T (fl t) -> agree (fold_left (fun T f => setF T f true) l T) (setfl fl t l true t).
 Proof.
   intros A f Hf. rewrite getF_fold_set in Hf. destruct l as [|x l]; [simpl in Hf; auto|].
-  unfold setfl. rewrite Z.eqb_refl. simpl andb. destruct (existsb (flag_eqb f) (x :: l)); auto.
+  unfold setfl. rewrite Z.eqb_refl, andb_true_l. destruct (existsb (flag_eqb f) (x :: l)) eqn:E; auto.
 Qed.
 
 Lemma agree_unset T fl t l : agree T (fl t) -> agree (fold_left (fun T f => setF T f false) l T) (setfl fl t l false t).
 Proof.
   intros A f Hf. rewrite getF_fold_unset in Hf. apply andb_true_iff in Hf as [H1 H2].
   destruct l as [|x l]; [simpl in *; auto|].
-  unfold setfl. rewrite Z.eqb_refl. simpl andb. apply negb_true_iff in H1. rewrite H1. auto.
+  unfold setfl. rewrite Z.eqb_refl, andb_true_l. apply negb_true_iff in H1. rewrite H1. auto.
 Qed.
 
 Lemma run_dead bufsz fi l s : m_dead s = true -> run bufsz fi l s = s.
@@ -1673,6 +1673,174 @@ Definition simple (T : F6) (i : instr) : Prop :=
 
 Lemma gfine_simple T l : Forall (simple T) l -> gfine T l = true /\ endT T l = T.
 Proof.
-  induction 1 as [|i l (S1 & S2 & S3) _ [IH1 IH2]]; simpl; auto.
-  unfold endT in *; simpl. unfold updT; rewrite S1, S2; simpl. rewrite S3, IH1, IH2; auto.
+  induction 1 as [|i l (S1 & S2 & S3) _ [IH1 IH2]]; [simpl; auto|].
+  assert (U : updT T i = T) by (unfold updT; rewrite S1, S2; reflexivity).
+  unfold endT in *. cbn [gfine fold_left]. rewrite U, S3, IH1. split; auto.
+Qed.
+
+Definition gf (T : F6) (l : list instr) (T' : F6) : Prop := gfine T l = true /\ endT T l = T'.
+
+Lemma gf_app T l1 l2 T1 T2 : gf T l1 T1 -> gf T1 l2 T2 -> gf T (l1 ++ l2) T2.
+Proof. intros [A <-] [B <-]; split; [rewrite gfine_app, A, B | rewrite endT_app]; auto. Qed.
+Lemma gf_cons T i l T2 : forallb (getF T) (i_guard i) = true -> gf (updT T i) l T2 -> gf T (i :: l) T2.
+Proof. intros G [A B]; split; simpl; [rewrite G, A | exact B]; auto. Qed.
+Lemma gf_simple T l : Forall (simple T) l -> gf T l T.
+Proof. apply gfine_simple. Qed.
+
+Definition T0 : F6 := mkF false false false false false false.
+Definition TA : F6 := mkF true true true false false true.   (* after a completed pass *)
+Definition TC : F6 := mkF true true true true true true.      (* inside a pass, after a copy *)
+
+Ltac simple_leaf := unfold simple; simpl; repeat split; reflexivity.
+
+Lemma copy_gf T t f data :
+  getF T FDirOpen = true -> getF T FDirOk = true -> getF T FMoveOk = true ->
+  gf T (copy_new t [FDirOpen; FDirOk] f data) TC.
+Proof.
+  intros H1 H2 H3. unfold copy_new.
+  destruct T as [a b c d e g]; simpl in H1, H2, H3; subst.
+  apply gf_cons; [reflexivity|]. apply gf_cons; [reflexivity|].
+  change (updT (updT _ _) _) with TC. apply gf_simple.
+  fa; try simple_leaf. apply Forall_flat_map, Forall_forall; intros c0 _. fa; simple_leaf.
+Qed.
+
+Lemma pass0_gf rho th : wf_order rho -> gf T0 (pass_new rho th 0) TA.
+Proof.
+  intros W. destruct (order_split rho W (th_tid th) 0%nat (EFile Obs)) as (a0 & b0 & E0 & Na & Nb); [simpl; auto|].
+  unfold pass_new. rewrite E0, flat_map_app. cbn [flat_map].
+  eapply gf_app; [apply gf_cons; [reflexivity|split; reflexivity]|].
+  eapply gf_app.
+  - eapply gf_app.
+    { apply gf_simple. apply Forall_flat_map, Forall_forall; intros e He.
+      destruct e as [| |[]]; try (exfalso; apply Na; exact He); fa; simple_leaf. }
+    apply gf_cons; [reflexivity|].
+    eapply gf_app; [apply copy_gf; reflexivity|].
+    apply gf_simple. apply Forall_flat_map, Forall_forall; intros e He.
+    destruct e as [| |[]]; try (exfalso; apply Nb; exact He); fa; simple_leaf.
+  - apply gf_cons; [reflexivity|]. apply gf_cons; [reflexivity|split; reflexivity].
+Qed.
+
+Lemma pass1_gf rho th : wf_order rho -> gf TA (pass_new rho th 1) TA.
+Proof.
+  intros W. destruct (order_split rho W (th_tid th) 1%nat (EFile Json)) as (a0 & b0 & E0 & Na & Nb); [simpl; auto|].
+  unfold pass_new. rewrite E0, flat_map_app. cbn [flat_map].
+  eapply gf_app; [apply gf_cons; [reflexivity|split; reflexivity]|].
+  eapply gf_app.
+  - eapply gf_app.
+    { apply gf_simple. apply Forall_flat_map, Forall_forall; intros e He.
+      destruct e as [| |[]]; try (exfalso; apply Na; exact He); fa; simple_leaf. }
+    apply gf_cons; [reflexivity|].
+    eapply gf_app; [apply copy_gf; reflexivity|].
+    apply gf_simple. apply Forall_flat_map, Forall_forall; intros e He.
+    destruct e as [| |[]]; try (exfalso; apply Nb; exact He); fa; simple_leaf.
+  - apply gf_cons; [reflexivity|]. apply gf_cons; [reflexivity|split; reflexivity].
+Qed.
+
+(* ------------------------------------------------------------------ OVNI_TMPDIR mode: a thread's part of the run *)
+
+Ltac keeps_leaf := let f0 := fresh "f" in let E := fresh "E" in
+  intros f0 E; simpl in E; try discriminate; injection E as <-; reflexivity.
+Ltac reloc_leaf := unfold reloc_instr; simpl; repeat split;
+  first [ reflexivity
+        | keeps_leaf
+        | (simpl; intuition discriminate)
+        | (left; simpl; tauto)
+        | (right; unfold nkind; simpl; repeat split; try reflexivity; left; repeat split; try reflexivity; eexists; reflexivity)
+        | (right; unfold nkind; simpl; repeat split; try reflexivity; right; repeat split; try reflexivity; eexists; reflexivity) ].
+
+Lemma copy_reloc t f data : Forall (reloc_instr t) (copy_new t [FDirOpen; FDirOk] f data).
+Proof.
+  unfold copy_new; fa; try reloc_leaf.
+  apply Forall_flat_map, Forall_forall; intros c _; fa; reloc_leaf.
+Qed.
+
+Lemma pass_tail_reloc rho th p : (p = 0 \/ p = 1)%nat ->
+  exists o tl, pass_new rho th p = o :: tl /\ Forall (reloc_instr (th_tid th)) tl
+               /\ (p = 1%nat -> reloc_instr (th_tid th) o).
+Proof.
+  intros Hp. eexists; eexists. split; [unfold pass_new; reflexivity|]. split.
+  - fa; try reloc_leaf.
+    apply Forall_flat_map, Forall_forall; intros e _. fa; try reloc_leaf.
+    destruct Hp as [-> | ->]; destruct e as [| |[]]; cbn; first [apply Forall_nil | apply copy_reloc].
+  - intros ->. reloc_leaf.
+Qed.
+
+Definition SB (rho : order) (th : thread) : list instr := pass_new rho th 0 ++ pass_new rho th 1.
+
+Lemma SB_cons rho th : exists tl,
+  SB rho th = mki (th_tid th) (Opendir (PThread Tmp (th_tid th))) [] [FDirOpen; FDirOk; FMoveOk] false true [FDirOpen; FMoveOk] :: tl
+  /\ Forall (reloc_instr (th_tid th)) tl.
+Proof.
+  destruct (pass_tail_reloc rho th 0 (or_introl eq_refl)) as (o0 & tl0 & E0 & F0 & _).
+  destruct (pass_tail_reloc rho th 1 (or_intror eq_refl)) as (o1 & tl1 & E1 & F1 & F1o).
+  exists (tl0 ++ o1 :: tl1). unfold SB. rewrite E1. split.
+  - rewrite E0. unfold pass_new in E0. injection E0 as <- _. reflexivity.
+  - apply Forall_app; split; auto.
+Qed.
+
+Lemma SB_dichotomy bufsz rho th b s b' s' :
+  R bufsz b (SB rho th) s b' s' -> m_dead s = false -> pendnone (th_tid th) (m_fs s) ->
+  s' = run bufsz None (SB rho th) s \/ m_fl s' (th_tid th) FMoveOk = false.
+Proof.
+  intros HR D P. destruct b; [|left; apply R_nobudget in HR as [-> _]; reflexivity].
+  destruct (SB_cons rho th) as (tl & E & F). rewrite E in *.
+  inversion HR; subst; clear HR; cbn [run].
+  - congruence.
+  - match goal with Hg : guard_ok _ _ = false |- _ => simpl in Hg; discriminate end.
+  - rewrite D. simpl guard_ok. cbv iota.
+    with_R ltac:(fun Hr => apply (R_dichotomy bufsz (th_tid th) tl F _ _ _ Hr)); [exact D|].
+    apply keeps_step; auto. intros f0 E0; simpl in E0; discriminate.
+  - right. with_R ltac:(fun Hr => eapply (R_flag_stays_false bufsz tl (th_tid th) FMoveOk); [|exact Hr|]).
+    + eapply Forall_impl; [|exact F]. intros a (_ & _ & Ha & _); exact Ha.
+    + unfold step. rewrite is_failure_nowrite by reflexivity. simpl. rewrite Z.eqb_refl. reflexivity.
+Qed.
+
+(* after a pass the directory is closed, whatever failed *)
+Lemma pass_dopen_false bufsz rho th p b s b' s' :
+  R bufsz b (pass_new rho th p) s b' s' -> m_dead s = false ->
+  m_fl s (th_tid th) FDirOpen = false -> m_fl s' (th_tid th) FDirOpen = false.
+Proof.
+  intros HR D H0. set (t := th_tid th) in *.
+  unfold pass_new in HR. fold t in HR.
+  match type of HR with R _ _ ([?o] ++ ?fm ++ [?r; ?c]) _ _ _ =>
+    set (o0 := o) in *; set (mid := fm ++ [r]); set (c0 := c) in *;
+    replace ([o0] ++ fm ++ [r; c0]) with (o0 :: mid ++ [c0]) in HR
+      by (unfold mid; rewrite <- app_assoc; reflexivity)
+  end.
+  assert (Fmid : Forall (fun i => nomention FDirOpen i /\ i_die i = false) mid).
+  { unfold mid. fa; try (split; [unfold nomention; simpl; intuition discriminate | reflexivity]).
+    apply Forall_flat_map, Forall_forall; intros e _. fa;
+      try (split; [unfold nomention; simpl; intuition discriminate | reflexivity]).
+    destruct e as [| |[]], p as [|[|[|p]]]; cbn; fa;
+      try (split; [unfold nomention; simpl; intuition discriminate | reflexivity]);
+      apply Forall_flat_map, Forall_forall; intros c1 _; fa;
+      split; [unfold nomention; simpl; intuition discriminate | reflexivity]. }
+  assert (Fg : Forall (fun i => i_tid i = t /\ In FDirOpen (i_guard i)) (mid ++ [c0])).
+  { unfold mid, c0. fa; try (split; [reflexivity | simpl; tauto]).
+    apply Forall_flat_map, Forall_forall; intros e _. fa; try (split; [reflexivity | simpl; tauto]).
+    destruct e as [| |[]], p as [|[|[|p]]]; cbn; fa; try (split; [reflexivity | simpl; tauto]);
+      apply Forall_flat_map, Forall_forall; intros c1 _; fa; split; [reflexivity | simpl; tauto]. }
+  assert (Hskip : forall s0 b0 b1 s2, m_fl s0 t FDirOpen = false -> R bufsz b0 (mid ++ [c0]) s0 b1 s2 -> s2 = s0).
+  { intros s0 b0 b1 s2 Hf Hr. eapply (R_all_skipped bufsz (mid ++ [c0]) t s0); [|exact Hr].
+    eapply Forall_impl; [|exact Fg]. intros a (Ta & Hin). split; auto. exists FDirOpen; auto. }
+  assert (Ffail : forall fk, m_fl (step bufsz (Some fk) o0 s) t FDirOpen = false).
+  { intros fk. unfold step, o0. rewrite is_failure_nowrite by reflexivity. simpl. rewrite Z.eqb_refl. reflexivity. }
+  inversion HR; subst; clear HR.
+  - congruence.
+  - with_R ltac:(fun Hr => rewrite (Hskip _ _ _ _ H0 Hr)); auto.
+  - with_R ltac:(fun Hr => apply R_app in Hr as (b2 & s2 & Hr1 & Hr2)).
+    assert (D2 : m_dead s2 = false).
+    { eapply (R_nodie bufsz mid); [|exact Hr1|exact D].
+      eapply Forall_impl; [|exact Fmid]. intros a [_ Ha]; exact Ha. }
+    assert (F2 : m_fl s2 t FDirOpen = true).
+    { rewrite (R_flag_keep bufsz mid t FDirOpen) with (s := step bufsz None o0 s) (b := b) (b' := b2) (s' := s2); auto.
+      - unfold o0. destruct p; simpl; rewrite Z.eqb_refl; reflexivity.
+      - eapply Forall_impl; [|exact Fmid]. intros a [Ha _]; exact Ha. }
+    inversion Hr2; subst; clear Hr2.
+    + congruence.
+    + match goal with Hg : guard_ok _ _ = false |- _ => unfold c0 in Hg; simpl in Hg; fold t in Hg; rewrite F2 in Hg; discriminate end.
+    + with_R ltac:(fun Hr => inversion Hr; subst). unfold c0; simpl. rewrite Z.eqb_refl. reflexivity.
+    + with_R ltac:(fun Hr => inversion Hr; subst). unfold step, c0. rewrite is_failure_nowrite by reflexivity. simpl.
+      rewrite Z.eqb_refl. reflexivity.
+  - with_R ltac:(fun Hr => rewrite (Hskip _ _ _ _ (Ffail fk) Hr)). apply Ffail.
 Qed.
